@@ -6,5 +6,6 @@ pub mod drive;
 pub mod explore;
 pub mod fam_atomic;
 pub mod fam_lock;
+pub mod fam_mpsc;
 pub mod fam_sync;
 pub mod prog;
